@@ -344,7 +344,7 @@ class History:
             loaded1 = set(self.A.tables)
             a2 = _save(self.A, fl)
         except Exception as e:
-            self._save_raised(e)
+            self._save_raised(e, loaded0)
             return
         x, y = a1, a2
         if a1 != a2 and loaded1 != loaded0:
@@ -352,7 +352,7 @@ class History:
             try:
                 a3 = _save(self.A, fl)
             except Exception as e:
-                self._save_raised(e)
+                self._save_raised(e, loaded0)
                 return
             tags, _ = _diff(a1, a2)
             new = {t for t in loaded1 - loaded0}
@@ -415,7 +415,7 @@ class History:
                     break
             self._fail("object-model", "dump-differs-after-saves:%s" % tag, "TTX dump of A (after %d saves/dumps/compiles) vs dump of a never-saved twin with the same edits and tables loaded: line %d: %r vs %r" % (self.unobs, i + 1, la[i][:120] if i < len(la) else b"", lb[i][:120] if i < len(lb) else b""))
 
-    def _save_raised(self, e):
+    def _save_raised(self, e, loaded=()):
         # is it the history or the font+edits? ask the twin
         try:
             _save(self.twin(), self.init.get("cmp_flavor"))
@@ -424,6 +424,18 @@ class History:
                 self.acc.exclude("save-raises-also-on-twin:%s" % type(e).__name__)
                 self.dead = True
                 return
+        # The library recalculates derived tables only from tables that are decoded (hhea/maxp from a decoded
+        # glyf, ...), so an edit that makes a derived value unrepresentable raises only once that table is
+        # decoded. That is a property of font + edits + decoded set, not of the saves/dumps in the history:
+        # ask a never-saved twin with the same tables decoded (same rule as for byte differences in check()).
+        if loaded:
+            try:
+                _save(self.twin(mirror=list(loaded)), self.init.get("cmp_flavor"))
+            except Exception as e3:
+                if type(e3) is type(e):
+                    self.acc.exclude("save-raises-also-on-twin-with-same-tables-decoded:%s" % type(e).__name__)
+                    self.dead = True
+                    return
         self._fail("later-operations", "save-raises-only-after-history:%s" % type(e).__name__, "save(A) raised %s: %s; the edits-only twin saves fine" % (type(e).__name__, str(e)[:200]), innermost_frame(e))
 
     def finish(self):
